@@ -62,6 +62,24 @@ Theorem C01_script_constructors_hash : forall (D : Deps) (net : Nets.net) (scrip
 Proof. exact Final.script_constructors_hash. Qed.
 Print Assumptions C01_script_constructors_hash.
 
+(* the exported constructors (NewAddressPubKeyHash, NewSlp..., NewLegacy..., NewAddressScriptHash32FromHash,
+   NewAddressPubKey) build exactly the values (a)-(c) quantify over, with ScriptAddress() = what was handed in *)
+Theorem C01_constructors_build : forall (D : Deps) (net : Nets.net) (slp : bool) (h : list N),
+  (length h = 20%nat ->
+     new_pkh (d_P D) net slp h = Ok (PKH (net_prefix net slp) h) /\
+     new_sh (d_P D) net slp h = Ok (SH (net_prefix net slp) h) /\
+     new_leg_pkh (d_P D) (pkh_id net) h = Ok (LegPKH (pkh_id net) h) /\
+     new_leg_sh (d_P D) (sh_id net) h = Ok (LegSH (sh_id net) h)) /\
+  (length h = 32%nat -> new_sh32 (d_P D) net slp h = Ok (SH32 (net_prefix net slp) h)) /\
+  (forall p id, script_address (d_P D) (d_ser D) (PKH p h) = h /\ script_address (d_P D) (d_ser D) (SH p h) = h /\
+                script_address (d_P D) (d_ser D) (SH32 p h) = h /\ script_address (d_P D) (d_ser D) (LegPKH id h) = h /\
+                script_address (d_P D) (d_ser D) (LegSH id h) = h) /\
+  (EC_roundtrip D -> forall fmt pt, fmt = PKFUncompressed \/ fmt = PKFCompressed \/ fmt = PKFHybrid ->
+     new_pubkey (d_P D) (d_parse D) net (d_ser D fmt pt) = Ok (PubKey fmt pt (pkh_id net)) /\
+     script_address (d_P D) (d_ser D) (PubKey fmt pt (pkh_id net)) = d_ser D fmt pt).
+Proof. exact Final.constructors_build. Qed.
+Print Assumptions C01_constructors_build.
+
 (* the six networks of chaincfg satisfy the premises used above (well-formed, SLP separated, ids registered for one kind) *)
 Theorem C01_six_nets_ok :
   Forall (fun n => wf_net n = true /\ (has_slp n = true -> slp_sep n = true) /\
